@@ -153,6 +153,19 @@ PLAN = {
             {"run": "TestC18_Concurrent", "checks": 2000, "race": True, "shards": 2, "timeout": 3000},
         ],
     },
+    "C19": {
+        "quick": [
+            {"run": "TestC19_Files", "checks": 75},
+            {"run": "TestC19_Cosine", "checks": 20000},
+            {"run": "TestC19_Search", "checks": 2000},
+            {"run": "TestC19_Replay"},
+        ],
+        "thorough": [
+            {"run": "TestC19_Files", "checks": 5000, "shards": 8, "timeout": 3000},
+            {"run": "TestC19_Cosine", "checks": 1000000, "shards": 4, "timeout": 3000},
+            {"run": "TestC19_Search", "checks": 100000, "shards": 4, "timeout": 3000},
+        ],
+    },
     "C20": {
         "wtf": True,
         "quick": [
